@@ -210,6 +210,23 @@ check("C14", "exploration",
       "bounded-exhaustive matrix enumeration on the real code with a metamorphic (swap) oracle",
       "DESIGN.md §3/C14")
 
+check("C15", "model_checking",
+      "Explicit-state search over call histories executed on the real library. State = the process-global lexer/parser/tracker "
+      "state (parser statics read through a wrapper TU, flex start condition and buffer stack, UTAP::tracker, errno); "
+      "transition = one more call of a public entry point, executed in a process forked from that state. 24 events (XML by "
+      "buffer/fd, XTA by buffer/FILE*, queries by buffer/FILE*, bare blocks; accepted, diagnosed, throwing XMLReaderError / "
+      "XMLDocError / runtime_error / TypeException from inside the grammar, unterminated comments, 3.x syntax, a client builder "
+      "aborting inside a comment / an array declarator / a label). All histories of length <= 2 (quick) / 3 (thorough) from "
+      "five counter seeds without pruning, then BFS to depth 4 / 6 merging histories that leave identical global state, then "
+      "every alignment of the 32-bit position counter relative to 2^31 and 2^32 for every event. Oracle: each call's canonical "
+      "result (return value or exception class, diagnostics with path/line/columns as the library renders them, document "
+      "dump, supported methods, parsed queries) equals that of the same call made first in a fresh process.",
+      "No hand model: every transition is an execution of the implementation. Pruning is sound if the digest is all a later "
+      "call can read from earlier ones (libxml2's own globals are not in it). The counter is seeded instead of parsing 4 GiB. "
+      "Known finding: wrap of the counter at 2^32 (known_findings.txt).",
+      "explicit-state BFS over call histories of the real library with fork-per-transition and global-state digests",
+      "DESIGN.md §3/C15")
+
 check("C19", "exploration",
       "For every parsed expression of the C02 enumeration and the C03 query forms (n-ary LIST/FUN_CALL/SIMULATE/PROBA nodes "
       "included) the real clone_deeper/subst/equal/get_size are run against their laws: clone equal, no shared node, mutation "
